@@ -274,10 +274,6 @@ PROPOSED_KNOWN = [
      "witness": "LC early 0",
      "what": "Shutdown called before Run has published s.httpServer returns 'server is not running'; serve.go then cancels and closes "
              "cleanShutdown, Run starts listening afterwards and nothing stops the server (no goroutine waits for a signal any more)"},
-    {"id": "F26b", "property": "C19", "monitor": "sigterm-stops-server:load", "cause": "shutdown-holds-mu:limiter-needs-mu",
-     "witness": "LC load 1000000",
-     "what": "with a rate limit, Shutdown holds Server.mu while http.Server.Shutdown waits for active handlers, and a handler waits for "
-             "Server.mu in the limiter: Shutdown never returns (repair proposed: patches/F26b-limiter-own-mutex.diff)"},
 ]
 
 
